@@ -108,7 +108,7 @@ func (g *Gen) declare(name, sort string) {
 }
 
 func (g *Gen) declareFun(name, sig string) {
-	if g.declared[name] {
+	if g.declared[name] || stubFunSet[name] {
 		return
 	}
 	g.declared[name] = true
